@@ -202,7 +202,7 @@ theorem exact_impl_mysqlFamily (d : Dialect) (_hd : d.isMySQL = true) (r : Req) 
           simp [hs, Tri.given, Tri.val?, emitAll, compile, renderDefault, Out.ok, exactOk, final, applyStmt,
             Stmt.col, effect, hname, keepOk, requestedOk, e1, e2, e3, e4, hnn, restatesAll, restatesTyNull,
             defaultIs]
-        | identity a s => simp [hs, isIdentity, DefVal.isIdentity] at hp
+        | identity a s e => simp [hs, isIdentity, DefVal.isIdentity] at hp
         | computed s => simp [hs, isComputed, DefVal.isComputed] at hp
 
 theorem exact_impl_mysql (r : Req) (init : ColState)
